@@ -4,6 +4,7 @@ package main
 
 import (
 	"fmt"
+	"os"
 	"strings"
 
 	"github.com/tikv/client-go/v2/verifx/hub"
@@ -156,6 +157,9 @@ func (d *xdfs) Choose(enabled []string) (string, bool) {
 			return "", true
 		}
 		d.diverged = true
+		if os.Getenv("HUB_DEBUG") != "" {
+			fmt.Fprintf(os.Stderr, "diverged at depth %d: want %q enabled %q\n", d.depth, want, enabled)
+		}
 		return "", false
 	}
 	d.stack = append(d.stack, xnode{enabled: append([]string{}, enabled...)})
@@ -205,8 +209,12 @@ func exhCombo(name string, layout [][]byte, progs []xprog, mode string, limit in
 			}
 			ok = runAll(w, scenarioTimeout, fns...)
 		}
-		if ok && !d.diverged {
+		cut := w.WasCut()
+		if ok && !d.diverged && !cut {
 			ok = w.Quiesce(scenarioTimeout)
+		}
+		if cut && !d.diverged {
+			ok = true
 		}
 		w.Close()
 		if d.diverged || !ok {
@@ -247,6 +255,15 @@ type xlayout struct {
 // two regions, and every triple over one key (one region) whose enumeration stays below the limit.  The start of a
 // transaction is itself a scheduled event, so both begin orders of a pair are inside one enumeration: (p,q) and (q,p) are
 // the same tree up to client names, and only multisets of programs are enumerated.
+// runExhaustiveOne (prop X02, diagnostics): one combination on two regions.
+func runExhaustiveOne() {
+	n, complete := exhCombo("diag", [][]byte{keyB}, []xprog{xW2(false, keyA), xW2(true, keyA)}, "2pc", *exhLimit)
+	run.Stats["exh:schedules"] = n
+	if !complete {
+		run.Stats["exh:incomplete-combos"] = 1
+	}
+}
+
 func runExhaustive(thorough bool) {
 	modes := []string{"2pc"}
 	if lean != nil {
@@ -293,9 +310,13 @@ func runExhaustive(thorough bool) {
 		// thorough, A: every pair of the two-key alphabet on one region
 		pairs("pairs-2keys", one, alphabet(true), mode)
 		// B: on two regions (a | b): the one-key programs on key a against every two-key program (primary in the same or in
-		// the other region) and the reader, the reader against every writer, and the optimistic against the pessimistic
-		// two-key writer.  (The one-key programs on key b mirror those on key a; the two-key writers against themselves on two
-		// regions exceed the schedule limit and are not part of the claim.)
+		// the other region) and the reader, and the reader against every two-key writer.  (The one-key programs on key b mirror
+		// those on key a.  Two two-key writers against each other on two regions are NOT enumerated: more than 40000 schedules
+		// per pair, and the optimistic writer's two parallel prewrite batches race for the client's shared lock resolver when
+		// both meet locks, which is a choice inside one client that the RPC scheduler does not control.)
+		if lean != nil {
+			continue // profile full: family A only (async commit and 1PC)
+		}
 		oneKey := []xprog{xRW(false, keyA), xRW(true, keyA), xLW(keyA), xSR(true, keyA)}
 		twoKey := []xprog{xW2(false, keyA), xW2(true, keyA), xW2(true, keyB), xR2()}
 		for _, p := range oneKey {
@@ -306,16 +327,12 @@ func runExhaustive(thorough bool) {
 		for _, q := range twoKey {
 			do("pairs-2regions", two, []xprog{xR2(), q}, mode, *exhLimit)
 		}
-		do("pairs-2regions", two, []xprog{xW2(false, keyA), xW2(true, keyA)}, mode, *exhLimit)
-		// C: triples over one key
-		if mi == 0 {
-			t := []xprog{xRW(false, keyA), xLW(keyA), xSR(true, keyA)}
-			for i, p := range t {
-				for j, q := range t[i:] {
-					for _, r := range t[i+j:] {
-						do("triples-1key", one, []xprog{p, q, r}, mode, *exhLimit)
-					}
-				}
+		// C: triples over one key: {lw, sr(pess), sr(pess)} and {sr(pess)}³ — every other triple of the alphabet exceeds the
+		// schedule limit of 20000 (measured: {lw,lw,lw}, {lw,lw,sr} and every triple with rw(opt) were cut at the limit)
+		if mi == 0 && lean == nil {
+			lw, sr := xLW(keyA), xSR(true, keyA)
+			for _, t := range [][]xprog{{lw, sr, sr}, {sr, sr, sr}} {
+				do("triples-1key", one, t, mode, *exhLimit)
 			}
 		}
 	}
